@@ -82,7 +82,16 @@ func genMilli(t *rapid.T) int {
 // digit counts aimed at the constants of the code: 3 (grammar), 15-20 (int64 overflow at 19), 60-80 (+Inf), up to 400
 var padVocab = []int{0, 0, 0, 1, 2, 3, 9, 12, 14, 15, 16, 17, 18, 19, 20, 30, 60, 70, 75, 80, 200, 397}
 
-func genQ(t *rapid.T, milli int) QV {
+// qctx keeps the weights of one case within the tolerance of the design: distinct values differ by at least
+// 1e-3 - 1e-4 and equal grid points are equal as decimals, because every use of a grid point in the case carries the
+// same tail digits (only the value-neutral trailing zeros, the leading zero and the name vary).
+type qctx struct {
+	tails map[int][2]string // milli -> (gap as unary zeros, tail)
+}
+
+func newQCtx() *qctx { return &qctx{tails: map[int][2]string{}} }
+
+func (c *qctx) genQ(t *rapid.T, milli int) QV {
 	q := QV{Milli: milli}
 	if rapid.IntRange(0, 7).Draw(t, "upperQ") == 0 {
 		q.Name = "Q"
@@ -95,17 +104,23 @@ func genQ(t *rapid.T, milli int) QV {
 	case milli == 1000 || milli == 0:
 		q.Dot = rapid.IntRange(0, 3).Draw(t, "dot") == 0
 	default:
-		if rapid.IntRange(0, 2).Draw(t, "tail") == 0 {
-			n := rapid.SampledFrom([]int{1, 1, 2, 5, 12, 16, 40, 70, 300}).Draw(t, "taillen")
-			switch rapid.IntRange(0, 2).Draw(t, "tailkind") {
-			case 0:
-				q.Tail = strings.Repeat("9", n)
-			case 1:
-				q.Tail = strings.Repeat("0", n-1) + "1"
-			default:
-				q.Tail = rapid.StringOfN(rapid.RuneFrom([]rune("0123456789")), n, n, n).Draw(t, "taildigits")
+		gt, ok := c.tails[milli]
+		if !ok {
+			if rapid.IntRange(0, 2).Draw(t, "tail") == 0 {
+				gt[0] = strings.Repeat("0", rapid.SampledFrom([]int{3, 3, 4, 9, 12, 15, 16, 20, 60}).Draw(t, "gap"))
+				n := rapid.SampledFrom([]int{1, 1, 2, 5, 12, 16, 40, 70, 300}).Draw(t, "taillen")
+				switch rapid.IntRange(0, 2).Draw(t, "tailkind") {
+				case 0:
+					gt[1] = strings.Repeat("9", n)
+				case 1:
+					gt[1] = strings.Repeat("0", n-1) + "1"
+				default:
+					gt[1] = rapid.StringOfN(rapid.RuneFrom([]rune("0123456789")), n, n, n).Draw(t, "taildigits")
+				}
 			}
+			c.tails[milli] = gt
 		}
+		q.Gap, q.Tail = len(gt[0]), gt[1]
 	}
 	if milli < 1000 {
 		q.NoLead = rapid.IntRange(0, 5).Draw(t, "nolead") == 0
@@ -132,7 +147,10 @@ func genOfferType(t *rapid.T) (string, string) {
 }
 
 func genOffers(t *rapid.T, max int) []string {
-	n := rapid.IntRange(0, max).Draw(t, "noffers")
+	n := rapid.IntRange(0, max+3).Draw(t, "noffers") // skewed away from the empty list
+	if n > max {
+		n = 1 + (n-max)%max
+	}
 	var offers []string
 	for i := 0; i < n; i++ {
 		if len(offers) > 0 && rapid.IntRange(0, 5).Draw(t, "dup") == 0 {
@@ -155,7 +173,7 @@ func genOffers(t *rapid.T, max int) []string {
 }
 
 // genRangeFor draws a media range; most of the time it is aimed at one of the offers.
-func genRangeFor(t *rapid.T, offers []string) Range {
+func genRangeFor(t *rapid.T, qc *qctx, offers []string) Range {
 	var r Range
 	aim := ""
 	if len(offers) > 0 && rapid.IntRange(0, 9).Draw(t, "aim") < 7 {
@@ -179,25 +197,32 @@ func genRangeFor(t *rapid.T, offers []string) Range {
 	r.Params = genParams(t, paramNames, 2, false)
 	r.HasQ = rapid.IntRange(0, 3).Draw(t, "hasq") != 0
 	if r.HasQ {
-		r.Q = genQ(t, genMilli(t))
+		r.Q = qc.genQ(t, genMilli(t))
 		r.Ext = genParams(t, extNames, 2, true)
 	}
 	r.WS = genWS(t, 2+2*(len(r.Params)+len(r.Ext)+1))
 	return r
 }
 
+// GenRanges is exported for C08.
+func GenRanges(t *rapid.T, offers []string, max int) []Range { return genRanges(t, offers, max) }
+
 func genRanges(t *rapid.T, offers []string, max int) []Range {
-	n := rapid.IntRange(0, max).Draw(t, "nranges")
+	qc := newQCtx()
+	n := rapid.IntRange(0, max+3).Draw(t, "nranges") // skewed away from "no header"
+	if n > max {
+		n = 1 + (n-max)%max
+	}
 	var rs []Range
 	for i := 0; i < n; i++ {
-		r := genRangeFor(t, offers)
+		r := genRangeFor(t, qc, offers)
 		if i > 0 {
 			r.NL = rapid.IntRange(0, 3).Draw(t, "newline") == 0
 		}
 		// equal weights make the specificity and offer-order rules decide
 		if i > 0 && r.HasQ && rs[0].HasQ && rapid.IntRange(0, 2).Draw(t, "sameq") == 0 {
 			keep := r.Q
-			r.Q = genQ(t, rs[0].Q.Milli)
+			r.Q = qc.genQ(t, rs[0].Q.Milli)
 			r.Q.Name = keep.Name
 		}
 		rs = append(rs, r)
@@ -236,6 +261,7 @@ func GenQOrder(t *rapid.T) Case {
 	if rapid.IntRange(0, 2).Draw(t, "adjacent") == 0 {
 		m1 = m2 - 1
 	}
+	qc := newQCtx()
 	mk := func(o string, kinds int, milli int, label string) Range {
 		parts := strings.SplitN(o, "/", 2)
 		r := Range{Type: parts[0], Sub: parts[1], HasQ: true}
@@ -245,7 +271,7 @@ func GenQOrder(t *rapid.T) Case {
 		case 2:
 			r.Type, r.Sub = "*", "*"
 		}
-		r.Q = genQ(t, milli)
+		r.Q = qc.genQ(t, milli)
 		if milli == 1000 && rapid.IntRange(0, 3).Draw(t, label+"noq") == 0 {
 			r.HasQ = false
 		}
@@ -264,7 +290,7 @@ func GenQOrder(t *rapid.T) Case {
 	}
 	nn := rapid.IntRange(0, 2).Draw(t, "nnoise")
 	for i := 0; i < nn; i++ {
-		n := Range{Type: "noise", Sub: rapid.SampledFrom([]string{"x", "*"}).Draw(t, "noisesub"), HasQ: true, Q: genQ(t, genMilli(t))}
+		n := Range{Type: "noise", Sub: rapid.SampledFrom([]string{"x", "*"}).Draw(t, "noisesub"), HasQ: true, Q: qc.genQ(t, genMilli(t))}
 		at := rapid.IntRange(0, len(rs)).Draw(t, "noiseat")
 		rs = append(rs[:at:at], append([]Range{n}, rs[at:]...)...)
 	}
